@@ -15,6 +15,7 @@ CONSTANTS
   Filts = {"client", "server"}
   Ops = {"pub", "rem", "exp", "sexp", "clear", "refresh", "poscheck"}
   MaxJumps = 1
+  EpochCheck = TRUE
   Pres = {0, 1}
   N0s = {0, 1, 2}
   Contig = FALSE
